@@ -323,6 +323,36 @@ def _passenger_worker(d, chunk, extra):
     return out
 
 
+# ---------------------------------------------------------------- stacks that differ only in what a closure captured
+def closure_state_cases():
+    """(query, expected number of distinct stacks): the walked state lives in the captured values of a block on the stack."""
+    step = "(|A B| (A 1 add ?(2 ?le) B, A B 1 add ?(2 ?le)))"
+    out = []
+    for wrap, unwrap in (("(|A B| {A B})", "(|F| F)"), ("(|A B| {B A})", "(|F| F swap)"), ("(|A B| 7 (|C| {A B C}))", "(|F| F drop)"), ("(|A B| {A} {B})", "(|F G| F G)")):
+        for form, n in (("*", 9), ("+", 8)):
+            out.append(("0 0 %s (%s %s %s)%s" % (wrap, unwrap, step, wrap, form), n if form == "*" else 8))
+    # captured values of different types in the same slot
+    out.append(('0 (drop (1, "a") (|X| {X}))*', 3))
+    out.append(('0 (drop (1, "a", [1], 2) (|X| {X}))*', 5))
+    out.append(('0 (drop (1, "a") (2, "b") (|X Y| {X Y}))+', 4))
+    return out
+
+
+def _closure_state_worker(d, chunk, extra):
+    out = {"n": 0, "exec": 0, "pulls": 0, "bad": []}
+    rs = d.batch([drv.run_cmd(q, lim=n + 3) for q, n in chunk])
+    for (q, n), r in zip(chunk, rs):
+        out["n"] += 1
+        out["exec"] += 1
+        out["pulls"] += len(r.results()) + 1
+        odd = [l for l in r.lines if not l.startswith("r ")]
+        if r.crash or odd or len(r.results()) != n:
+            out["bad"].append(("cstate:%s" % q, "`%s` yields %d stacks%s, the reachable set has %d (stacks differ only in the values a block captured)%s" % (
+                q, len(r.results()), " and does not stop" if "t" in odd else "", n, " - died: %s %s" % (r.crash[0], r.crash[1][-300:]) if r.crash else ""),
+                {"cstate": q, "n": n, "kind": "cstate"}))
+    return out
+
+
 def _worker(d, task, extra):
     n, maxlen, k, m = task
     out = {"graphs": 0, "exec": 0, "pulls": 0, "bad": [], "sizes": {}, "sample": None}
@@ -354,16 +384,18 @@ def replay(case):
     ctx = common.Ctx("C10", "quick")
     d = drv.Drv(ctx.bin("zwdrv"), "core")
     try:
+        if "cstate" in case:
+            return bool(_closure_state_worker(d, [(case["cstate"], case["n"])], None)["bad"])
         if "passenger_graph" in case:
             r = _passenger_worker(d, [tuple(tuple(a) for a in case["passenger_graph"])], None)
             return bool(r["bad"])
         if "ring" in case:
             r = _grid_worker(d, [(tuple(case["ring"]), case["body"])], None)
-            return any(b[2]["kind"] == case["kind"] for b in r["bad"])
+            return bool(r["bad"])
         g = tuple(tuple(a) for a in case["g"])
         cmds, meta = cmds_for(g, case["n"], STREAMS)
         _, _, bad = judge(g, case["n"], meta, d.batch(cmds), STREAMS)
-        return any(b[2]["kind"] == case["kind"] for b in bad)
+        return bool(bad)
     finally:
         d.close()
 
@@ -400,6 +432,12 @@ def main(ctx):
         ctx.count("pulls", r["pulls"])
         for k, v in r["sizes"].items():
             gsizes[k] = gsizes.get(k, 0) + v
+        for key, what, case in r["bad"]:
+            ctx.violation(key, what, case)
+    for r in common.pmap(ctx, _closure_state_worker, common.chunks(closure_state_cases(), 2), bins["zwdrv"], "core", timeout=60):
+        ctx.count("closure_state_cases", r["n"])
+        ctx.count("executions", r["exec"])
+        ctx.count("pulls", r["pulls"])
         for key, what, case in r["bad"]:
             ctx.violation(key, what, case)
     for r in common.pmap(ctx, _passenger_worker, common.chunks(graphs(2, 2), 3), bins["zwdrv"], "core", timeout=60):
